@@ -281,15 +281,15 @@ def r_provenance(ctx):
             if len(bs) != 1 or bs[0]["how"] != how:
                 res.fail(p, "build", "storage is not requested exactly once through %s" % how, span=ctx.span_of(p))
                 ok = False
-            elif bs[0]["layout"] != ("LAYOUTOF", "T"):
+            elif bs[0]["layout"] != ("LAYOUTOF", ctx.tparam(p)):
                 res.fail(p, "layout", "storage layout is %s, expected Layout::new::<T>()" % (bs[0]["layout"],), span=span_of_effect(bs[0]))
                 ok = False
-            if tr.get(("raw", "type_id")) != ("TYPEID", "T"):
+            if tr.get(("raw", "type_id")) != ("TYPEID", ctx.tparam(p)):
                 res.fail(p, "type_id", "type id recorded is %s, expected TypeId::of::<T>()" % (tr.get(("raw", "type_id")),), span=ctx.span_of(p))
                 ok = False
             cf = tr.get(("clone_fn",))
             if not (isinstance(cf, tuple) and cf and cf[0] == "clonetype_new" and isinstance(cf[1], tuple) and cf[1][0] == "aconst"
-                    and cf[1][1].endswith("CLONE_FN") and cf[1][2][:1] == ("T",)):
+                    and cf[1][1].endswith("CLONE_FN") and cf[1][2][:1] == (ctx.tparam(p),)):
                 res.fail(p, "clone_fn", "clone function is %s, expected CLONE_FN of T" % (cf,), span=ctx.span_of(p))
                 ok = False
             if tr.get(("raw", "len")) != Poly():
@@ -313,10 +313,10 @@ def r_provenance(ctx):
             pa = [e for e in I.all_effects(("PTRADD",))]
             rn = I.all_effects(("RANGE_NEXT",))
             ok = True
-            if len(ds) != 1 or ds[0]["ety"] != "T" or as_poly(ds[0]["n"]) != Poly.const(1):
+            if len(ds) != 1 or ds[0]["ety"] != ctx.tparam(newp) or as_poly(ds[0]["n"]) != Poly.const(1):
                 res.fail(cp, "destroy", "erased destructor must drop exactly one T per iteration", span=ctx.span_of(cp))
                 ok = False
-            if len(pa) != 1 or as_poly(pa[0]["n"]) != Poly.atom(("SIZEOF", "T")):
+            if len(pa) != 1 or as_poly(pa[0]["n"]) != Poly.atom(("SIZEOF", ctx.tparam(newp))):
                 res.fail(cp, "stride", "erased destructor advances by %s, expected size_of::<T>()" % (pa[0]["n"] if pa else None), span=ctx.span_of(cp))
                 ok = False
             if len(rn) != 1 or not _in_cycle(I, ds[0].gid if ds else rn[0].gid):
@@ -338,7 +338,7 @@ def r_provenance(ctx):
         for tt, I in ctx.arms(newp) or []:
             tr = ret_tree(I) or {}
             res.inst(sample={"constructor": newp, "type_id": str(tr.get(("type_id",)))}, func=newp)
-            if tr.get(("type_id",)) != ("TYPEID", "T") or tr.get(("len",)) != Poly():
+            if tr.get(("type_id",)) != ("TYPEID", ctx.tparam(newp)) or tr.get(("len",)) != Poly():
                 res.fail(newp, "fields", "AnyVecRaw::new records type id %s / len %s" % (tr.get(("type_id",)), tr.get(("len",))), span=ctx.span_of(newp))
             else:
                 res.ok()
@@ -386,7 +386,7 @@ def r_provenance(ctx):
             for tt, I in ctx.arms(items[0]["path"]) or []:
                 rets = I.all_effects(("RETURN",))
                 val = rets[0]["value"] if rets else None
-            if isinstance(val, tuple) and val and val[0] == "fnitem" and val[1] == "clone_type::clone_fn" and val[2] == ("T",):
+            if isinstance(val, tuple) and val and val[0] == "fnitem" and val[1] == "clone_type::clone_fn" and val[2] == (ctx.tparam(items[0]["path"], 0),):
                 res.ok()
             else:
                 res.fail(im.get("trait_ref"), "CLONE_FN", "CLONE_FN is %s, expected clone_fn::<T>" % (val,))
@@ -403,7 +403,7 @@ def r_provenance(ctx):
         ws = I.all_effects(("WRITE",))
         us = [e for e in I.all_effects(("USER",)) if e["what"] == "clone"]
         ok = True
-        if len(ws) != 1 or ws[0]["ety"] != "T" or not _in_cycle(I, ws[0].gid):
+        if len(ws) != 1 or ws[0]["ety"] != ctx.tparam(p) or not _in_cycle(I, ws[0].gid):
             res.fail(p, "write", "clone_fn must write (not assign) one T per iteration", span=ctx.span_of(p))
             ok = False
         if len(us) != 1 or not _in_cycle(I, us[0].gid):
@@ -416,11 +416,11 @@ def r_provenance(ctx):
         if len(I.all_effects(("RETURN",))) != 1:
             res.fail(p, "early-return", "clone_fn has an early return that bypasses the clone loop", span=ctx.span_of(p))
             ok = False
-        if [d for d in normal_drops(I) if ty_str(d["ty"]) == "T"]:
+        if [d for d in normal_drops(I) if ty_str(d["ty"]) == ctx.tparam(p)]:
             res.fail(p, "drop", "clone_fn drops a T in the destination (assignment instead of write)", span=ctx.span_of(p))
             ok = False
         pa = I.all_effects(("PTRADD",))
-        if len(pa) != 2 or any(x["ety"] != "T" for x in pa) or any(len(as_poly(x["n"]).m) != 1 or as_poly(x["n"]).is_const() for x in pa):
+        if len(pa) != 2 or any(x["ety"] != ctx.tparam(p) for x in pa) or any(len(as_poly(x["n"]).m) != 1 or as_poly(x["n"]).is_const() for x in pa):
             res.fail(p, "index", "source and destination must be indexed by the same element index", span=ctx.span_of(p))
             ok = False
         if ok:
@@ -485,8 +485,8 @@ def _reporters(res, ctx):
     expect(TV + "AnyValueTypeless>::size", lambda tt, v: isinstance(v, Poly) and [a[0] for a in v.atoms()] == (["STRIDE"] if erased(tt) else ["SIZEOF"]),
            "element size of the vector (erased) / size_of::<Element>() (typed)")
     W = "<any_value::wrapper::AnyValueWrapper as any_value::"
-    expect(W + "AnyValue>::value_typeid", lambda tt, v: v == ("TYPEID", "T"), "TypeId::of::<T>()")
-    expect(W + "AnyValueTypeless>::size", lambda tt, v: v == Poly.atom(("SIZEOF", "T")), "size_of::<T>()")
+    expect(W + "AnyValue>::value_typeid", lambda tt, v: v == ("TYPEID", ctx.tparam(W + "AnyValue>::value_typeid", 0)), "TypeId::of::<T>()")
+    expect(W + "AnyValueTypeless>::size", lambda tt, v: v == Poly.atom(("SIZEOF", ctx.tparam(W + "AnyValueTypeless>::size", 0))), "size_of::<T>()")
     R = "<any_value::raw::AnyValueRaw as any_value::"
     expect(R + "AnyValue>::value_typeid", lambda tt, v: is_field(v, "typeid") or _tree_alias_last(v, "typeid"), "its typeid field")
     expect(R + "AnyValueTypeless>::size", lambda tt, v: is_field(v, "size"), "its size field")
